@@ -289,8 +289,10 @@ func (r *rec) collOps() font.VerifCollectionOps {
 	}
 }
 
-func (r *rec) txOps() api.VerifTxOps {
-	d := api.VerifDefaultTxOps()
+func (r *rec) txOps() api.VerifTxOps { return r.txOpsFrom(api.VerifDefaultTxOps()) }
+
+// txOpsFrom wraps a production transaction table (font install / cheat sheets) with the recorder.
+func (r *rec) txOpsFrom(d api.VerifTxOps) api.VerifTxOps {
 	return api.VerifTxOps{
 		MkdirTemp: r.mkdirTemp(d.MkdirTemp),
 		Lstat:     r.lstat(d.Lstat),
@@ -339,12 +341,22 @@ func (r *rec) snapshot() snap {
 			s[r.label(p, false)] = map[string]string{}
 			return nil
 		}
+		dl := r.label(filepath.Dir(p), false)
+		if fi.Mode()&os.ModeSymlink != 0 {
+			// a symbolic link is part of the directory's contents: record the link itself, not what it points to
+			tgt, _ := os.Readlink(p)
+			if s[dl] == nil {
+				s[dl] = map[string]string{}
+			}
+			fl := r.label(p, true)
+			s[dl][fl[strings.LastIndexByte(fl, '/')+1:]] = fmt.Sprintf("link:%x", tgt)
+			return nil
+		}
 		bb, _ := os.ReadFile(p)
 		data := fmt.Sprintf("%x", bb)
 		if r.canon != nil {
 			data = r.canon(p, bb)
 		}
-		dl := r.label(filepath.Dir(p), false)
 		if s[dl] == nil {
 			s[dl] = map[string]string{}
 		}
